@@ -39,6 +39,23 @@ structure FramesExt (σ σ' : Store) : Prop where
   size : σ.frames.size ≤ σ'.frames.size
   frames : ∀ i, i < σ.frames.size → σ'.frames[i]? = σ.frames[i]?
 
+/-- `Ext` up to the activation-depth instrumentation: frames appended, vectors, output and tick
+trace unchanged (what the library does between two applications of a procedure argument, which
+happen one activation deeper) -/
+structure DExt (σ σ' : Store) : Prop where
+  size : σ.frames.size ≤ σ'.frames.size
+  frames : ∀ i, i < σ.frames.size → σ'.frames[i]? = σ.frames[i]?
+  vecs : σ'.vecs = σ.vecs
+  out : σ'.out = σ.out
+  ticks : σ'.ticks = σ.ticks
+
+/-- `σ'` keeps the frames a running library procedure relies on: the library frame `b` and every
+frame numbered `N` or more (the frames allocated since the library procedure was entered);
+frames may have been appended and anything else may have changed -/
+structure Keeps (b N : Nat) (σ σ' : Store) : Prop where
+  size : σ.frames.size ≤ σ'.frames.size
+  frames : ∀ i, i < σ.frames.size → (i = b ∨ N ≤ i) → σ'.frames[i]? = σ.frames[i]?
+
 end Store
 
 namespace ListSpec
@@ -152,6 +169,19 @@ def appendDomain : List Value → Prop
   | [] => True
   | [_] => True
   | l :: rest => isProperList l = true ∧ appendDomain rest
+
+/-- the elements of the list value `l` in front of `t`; the `car` error if `l` is improper -/
+def prependS : Value → Except SErr Value → Except SErr Value
+  | .nil, t => t
+  | .pair a d, t => (prependS d t).map (.pair a)
+  | _, _ => .error typeErr
+
+/-- `append` on ALL argument lists: as `appendS` when every argument but the last is a proper
+list (`appendE_eq`), else the error of taking the `car` of the improper tail -/
+def appendE : List Value → Except SErr Value
+  | [] => .ok .nil
+  | [last] => .ok last
+  | l :: rest => prependS l (appendE rest)
 
 /-! ## the store-passing combinators of the higher-order procedures -/
 
@@ -291,6 +321,21 @@ theorem appendS_ofList (xs ys : List Value) :
     appendS [Value.ofList xs, Value.ofList ys] = Value.ofList (xs ++ ys) := by
   simp only [appendS, spine_ofList]
   induction xs <;> simp_all [withTail, Value.ofList]
+
+theorem prependS_proper (l : Value) (h : isProperList l = true) (t : Value) :
+    prependS l (.ok t) = .ok (withTail (spine l).1 t) := by
+  induction l with
+  | nil => rfl
+  | pair a d _ ihd =>
+    simp only [prependS, spine, withTail, ihd (by simpa [isProperList] using h)]; rfl
+  | _ => simp [isProperList] at h
+
+theorem appendE_eq : ∀ (args : List Value), appendDomain args → appendE args = .ok (appendS args)
+  | [], _ => rfl
+  | [_], _ => rfl
+  | l :: r :: rest, h => by
+    simp only [appendE, appendS]
+    rw [appendE_eq (r :: rest) h.2, prependS_proper l h.1]
 
 theorem makeListS_nonpos (k : Int) (fill : Value) (h : k ≤ 0) : makeListS k fill = .nil := by
   have : k.toNat = 0 := by omega
